@@ -242,6 +242,8 @@ def job_gen_run(args):
     case["ids"] = ids
     mut = opts.get("mutate")
     case["mutate"] = (rng.random() < 0.5) if mut == "half" else bool(mut)
+    if case["mutate"] and mut == "half" and rng.random() < 0.35:
+        case["mutate"] = "late"  # the engine keeps the lists it was given and clears them when the next notification arrives
     case["gen_seed"] = seed
     if all(case["imm"]) and opts.get("depth", 3) > 2:
         # everything completes inside start(): keep the chain of nested evaluations short (finding K9)
@@ -543,6 +545,18 @@ def job_callable_kinds(args):
             calls.append((label, api.uuid))
 
         kept = Holder("kept-method")
+
+        def protocol(api):
+            calls.append(("protocol", api.uuid))
+
+        # one generic function registered for ALL four kinds (a protocol / logging function): accepted for each kind
+        proto_rets = {}
+        for k2, r2 in (("ts", run.s.register_callback_task_started), ("ss", run.s.register_callback_service_started),
+                       ("sf", run.s.register_callback_service_finished), ("tf", run.s.register_callback_task_finished)):
+            try:
+                proto_rets[k2] = r2(protocol)
+            except Exception as ex:  # noqa: BLE001
+                proto_rets[k2] = "raised " + type(ex).__name__
         makers = {
             "function": lambda: plain,
             "lambda": (lambda f=(lambda api: calls.append(("lambda", api.uuid))): f),
@@ -586,6 +600,14 @@ def job_callable_kinds(args):
             problems.append("a call raised %s" % c["exc"])
         # the harness's own listener (fn 0) saw these notifications of the kind, in order
         seen = [e[5] for cc in run.calls for e in cc["out"] if e[0] == "INV" and e[1] == kind and e[2] == 0]
+        all_seen = sum(1 for cc in run.calls for e in cc["out"] if e[0] == "INV" and e[2] == 0)
+        bad_rets = {k2: r2 for k2, r2 in proto_rets.items() if r2 is not True}
+        if bad_rets:
+            problems.append("one function registered for all four kinds of notification: the registrations reported %r" % bad_rets)
+        nproto = sum(1 for lb, _ in calls if lb == "protocol")
+        if not problems and nproto != all_seen:
+            problems.append("a function registered for all four kinds was invoked %d times for %d notifications" % (nproto, all_seen))
+        calls[:] = [c for c in calls if c[0] != "protocol"]
         expected = [(lb, u) for u in seen for lb in order]
         if not problems and calls != expected:
             got = {}
@@ -670,7 +692,7 @@ def job_variants(case):
     signal.alarm(120)
     out = []
     try:
-        variants = [("base", {}), ("uuid", {"ids": "uuid"}), ("file", {"as_file": True}),
+        variants = [("base", {}), ("uuid", {"ids": "uuid", "reseed": True}), ("file", {"as_file": True}),
                     ("noobs", {"_strip_observers": True}), ("repeat", {}), ("others", {"_others": "uuid"}),
                     ("others_testids", {"_others": "test"})]
         if case.get("_draw"):
